@@ -981,7 +981,7 @@ def gen_slow_block_case(rng):
     mb = rng.range(0, 6)
     D = rng.range(0, 12) + (3 * m if rng.chance(0.5) else 0)
     rules += ['jr {x} => { assert(x - $ <= %d), 0x33 @ (x - $)`8 }' % D, 'jr {x} => { assert(x - $ > %d), 0x44 @ x`24 }' % D, 'nop => 0x00']
-    ref = rng.choice(['L', 'L', 'g', 'L + g - g'])
+    ref = 'L'      # the block depends on its position only, so the block ALONE can be swept over addresses
     inner = ['s%d %s' % (k, ref) for k in range(1, m + 1)]
     inner.insert(rng.choice([m, m, rng.range(0, m)]), 'L:')
     rules.append('blk => asm {\n        %s\n    }' % '\n        '.join(inner))
